@@ -3,11 +3,22 @@
 
   Property theorems only; helper lemmas: CelloProofs/Lemmas/File.lean (reference stdio, chunked reads/writes) and
   CelloProofs/Lemmas/FileTrack.lean (the call-log automaton over every wrapper), CelloProofs/Lemmas/FileWith.lean (the
-  clauses of the `with` loop, its protocol automaton, a block that writes under the reference stdio).
+  clauses of the `with` loop, its protocol automaton, a block that writes under the reference stdio),
+  CelloProofs/Lemmas/FileGlobal.lean (the automaton over handles: from each object's log to the log of the process).
   Model: Cello/File.lean — `step` (the File_* wrappers of src/File.c over an abstract `Stdio σ`), `Multi` (several objects
-  over one library), `refIO` (reference stdio: byte files, positions, end-of-file flags), `track` (what a well-bracketed
-  log of stdio calls is), `execStmt` (programs with `with` blocks: the for loop of `with_in` clause by clause, source
-  expressions with side effects, the four ways out of a body), `wtrack` (what a well-formed run of with blocks is).
+  over one library; `new`, `del`, every operation, and `copy` / `assign`, which for File are the default memcpy),
+  `refIO` (reference stdio: byte files, positions, end-of-file flags), `track` (what a well-bracketed log of stdio calls
+  of ONE object is), `gtrack` (the same over HANDLES, for the log of the whole process), `execStmt` (programs with
+  `with` blocks: the for loop of `with_in` clause by clause, source expressions with side effects, the five ways out of
+  a body), `wtrack` (what a well-formed run of with blocks is).
+
+  Two known findings delimit the close-once clause (both are refuted below on concrete runs of the model, which mirrors
+  the code, and both are reproduced on the library by corpus/kf_c20_*.ops):
+    KF-C20-copy-aliases-handle  `copy(f)` / `assign(g, f)` of an open File duplicate the FILE* (File has no Assign / Copy
+                                instance): one fopen then faces two fcloses and a closed handle reaches stdio; `assign`
+                                onto an open File drops its handle without fclose.  Hypothesis `cleanRun` / `cleanList`.
+    KF-C20-with-early-exit      `break`, `return` and an exception leave a with block without stop_in: the stream stays
+                                open.  Hypothesis `leave.runsStep = true`; theorems named `_partial`.
   Source-derived facts: CelloGen/File.lean (guard table, File_Close facts, class instances, `with_in`).
 
   Reading guide.  A File object is `Option Handle` (`none` = `f->file` is NULL).  Every wrapper returns the stdio calls
@@ -19,6 +30,7 @@
 -/
 import CelloProofs.Lemmas.FileTrack
 import CelloProofs.Lemmas.FileWith
+import CelloProofs.Lemmas.FileGlobal
 import CelloGen.File
 
 namespace Cello.File
@@ -53,6 +65,15 @@ theorem C20_source_shape :
     CelloGen.File.instFormat = ["File_Format_To", "File_Format_From"] := by
   decide
 
+/-- `copy` and `assign` of a File are what the model says (`MOp.copy` / `MOp.assign`): File declares no Assign and no Copy
+    instance, `assign` without an Assign instance is `memcpy(self, obj, size(type))`, `copy` without a Copy instance is
+    `assign(alloc(type), self)` — the region of known finding KF-C20-copy-aliases-handle.  (A File_Assign / File_Copy added
+    to src/File.c makes this theorem, or already the translator, fail: the model must then follow.) -/
+theorem C20_copy_is_memcpy :
+    CelloGen.File.instClasses = ["Doc", "New", "Start", "Stream", "Format"] ∧
+    CelloGen.File.assignFallsBackToMemcpy = true ∧ CelloGen.File.copyFallsBackToAssignAlloc = true := by
+  decide
+
 /-- the `with` macro, clause by clause, is the for loop the model executes (`execStmt`): the init clause hands the macro
     argument `S` to start_in and binds the result to `X`; the condition is `X isnt NULL`; the step clause hands the loop
     variable `X` — not `S` again — to stop_in; start_in returns its argument, stop_in calls the type's `stop` and returns
@@ -77,7 +98,10 @@ theorem C20_current_cfg : (⟨CelloGen.File.closeGuarded, CelloGen.File.closeDro
 /-- **C20 (closed ⇒ IOError, no stdio).** For every stdio implementation, every library state and every operation that
     needs an open File (sclose, stop, leaving a with block, sseek, stell, sflush, seof, sread, swrite, print_to with a
     non-empty format, scan_from): on a File that is not open it raises IOError, makes no stdio call, and changes neither
-    the library state nor the object. -/
+    the library state nor the object.
+    (print_to / scan_from look at their arguments before they look at the File — src/Show.c print_to_with raises
+    FormatError for a format with more specifications than arguments whether the File is open or not; `.print frags` is a
+    call whose arguments were accepted, and the empty format, which never reaches File_Format_To, is `.print []`.) -/
 theorem C20_closed_refused {σ : Type} (io : Stdio σ) (l : σ) (op : Op) (h : op.needsOpen = true) :
     step io Cfg.fixed l none op = ⟨l, none, .raised .IOError, []⟩ := by
   cases op with
@@ -109,6 +133,67 @@ theorem C20_closed_other {σ : Type} (io : Stdio σ) (l : σ) :
   intro k m
   rcases ho : io.fopen l k m with ⟨l2, r⟩
   cases r <;> simp [step, fileOpen, R.val, ho]
+
+/-- `new(File, $S(path))` — exactly one constructor argument: File_New reads `get(args, $I(1))` before File_Open is entered,
+    IndexOutOfBoundsError is raised, no stdio function is called and no object comes into being (nothing can leak) -/
+theorem C20_new_one_arg {σ : Type} (io : Stdio σ) (s : Multi σ) (o k : Nat) (hfree : lookup o s.objs = none) :
+    s.stepR io Cfg.fixed o (.new1 k) = some (⟨s.lib, none, .raised .IndexOutOfBoundsError, []⟩, false) ∧
+    (s.step io Cfg.fixed o (.new1 k)).log = s.log ∧ (s.step io Cfg.fixed o (.new1 k)).held o = none ∧
+    (s.step io Cfg.fixed o (.new1 k)).lib = s.lib := by
+  simp [Multi.stepR, Multi.step, hfree, Multi.apply, Multi.held, lookup_erase_self]
+
+/-! ## the wrappers add nothing between the caller and stdio -/
+
+/-- **What swrite / sread / stell / seof / sseek return is what stdio returned** — for EVERY stdio implementation (no
+    reference stdio involved).  On an open File each wrapper makes exactly the one stdio call (sread: plus `feof` when the
+    item was not complete) on the File's own handle, keeps the handle, leaves the library in the state that call
+    produced, hands back exactly the item count / bytes / position / flag stdio answered, and raises IOError exactly in
+    the cases File.c spells out. -/
+theorem C20_wrappers_transparent {σ : Type} (io : Stdio σ) (l : σ) (h : Handle) :
+    (∀ d, let r := fileWrite io l (some h) d;
+      r.lib = (io.fwrite l h d).1 ∧ r.f = some h ∧ r.calls = [.on .fwrite h] ∧
+      (∀ n, r.out = .ok n → n = (io.fwrite l h d).2) ∧
+      (r.out = .raised .IOError ↔ ((io.fwrite l h d).2 ≠ 1 ∧ d.length ≠ 0))) ∧
+    (∀ size, let r := fileRead io l (some h) size;
+      r.f = some h ∧ (∀ num data, r.out = .ok (num, data) → (num, data) = (io.fread l h size).2) ∧
+      (r.calls = [.on .fread h] ∨ r.calls = [.on .fread h, .on .feof h])) ∧
+    (let r := fileTell io l (some h);
+      r.lib = (io.ftell l h).1 ∧ r.f = some h ∧ r.calls = [.on .ftell h] ∧ ∀ p, r.out = .ok p ↔ (io.ftell l h).2 = some p) ∧
+    (let r := fileEof io l (some h);
+      r.lib = (io.feof l h).1 ∧ r.f = some h ∧ r.calls = [.on .feof h] ∧ r.out = .ok (io.feof l h).2) ∧
+    (∀ off wh, let r := fileSeek io l (some h) off wh;
+      r.lib = (io.fseek l h off wh).1 ∧ r.f = some h ∧ r.calls = [.on .fseek h] ∧
+      (r.out = .ok () ↔ (io.fseek l h off wh).2 = true)) := by
+  refine ⟨?_, ?_, ?_, ?_, ?_⟩
+  · intro d
+    rcases hw : io.fwrite l h d with ⟨l1, num⟩
+    simp only [fileWrite, hw]
+    refine ⟨by trivial, by trivial, by trivial, ?_, ?_⟩
+    · intro n hn; split at hn <;> simp_all
+    · split <;> simp_all
+  · intro size
+    rcases hr : io.fread l h size with ⟨l1, num, data⟩
+    by_cases hc : num ≠ 1 ∧ size ≠ 0
+    · rcases he : io.feof l1 h with ⟨l2, e⟩
+      simp only [fileRead, hr, if_pos hc, he]
+      refine ⟨by trivial, ?_, by simp⟩
+      intro n dd hn
+      cases e <;> simp_all
+    · simp only [fileRead, hr, if_neg hc]
+      refine ⟨by trivial, ?_, by simp⟩
+      intro n dd hn
+      simp_all
+  · rcases ht : io.ftell l h with ⟨l1, r⟩
+    simp only [fileTell, ht]
+    refine ⟨by trivial, by trivial, by trivial, ?_⟩
+    intro p; cases r <;> simp
+  · rcases he : io.feof l h with ⟨l1, e⟩
+    simp [fileEof, he]
+  · intro off wh
+    rcases hs : io.fseek l h off wh with ⟨l1, ok⟩
+    simp only [fileSeek, hs]
+    refine ⟨by trivial, by trivial, by trivial, ?_⟩
+    cases ok <;> simp
 
 /-! ## close exactly once -/
 
@@ -153,35 +238,157 @@ theorem C20_all_closed_at_end {σ : Type} (io : Stdio σ) (l : σ) (ops : List O
   simp only [hf', Option.isSome_none, Bool.false_eq_true, if_false, Nat.add_zero]
   rfl
 
-/-- **C20 (close-once), any number of objects over one library.** For every stdio implementation and every interleaving
-    of `new` (with or without arguments, possibly failing), `del` and operations on any objects, the calls made on behalf
-    of each single object are well bracketed and end with what that object holds (nothing, if it was deleted or its
-    constructor threw). -/
-theorem C20_close_once_system {σ : Type} (io : Stdio σ) (s : Multi σ) (steps : List (Nat × MOp)) (o : Nat) :
-    ∃ suf, (s.run io Cfg.fixed steps).log = s.log ++ suf ∧
-      track (s.held o) (proj o suf) = some ((s.run io Cfg.fixed steps).held o) :=
-  Multi.run_track io s steps o
+/-- **C20 (close-once), any number of objects over one library, OVER HANDLES** (what the C library sees; a statement
+    about each object's own calls cannot see a handle that two objects hold).
+    For every stdio implementation, every start state in which distinct objects hold distinct handles (`Sep`) and the
+    handles that are open are exactly the ones the objects hold (`LiveIs live`), and every interleaving of `new` (with or
+    without arguments, possibly failing), `del`, operations on any objects, `copy` and `assign` — PROVIDED no File object is
+    copied / assigned while it or its target is open (`cleanRun`; the excluded region is known finding
+    KF-C20-copy-aliases-handle, refuted below): if stdio never hands out a handle that is still open (`freshCalls`), the
+    log of the whole process is accepted by the automaton over handles — no call on NULL or on a handle that is not open,
+    every fclose ends the life of an open handle, so no fopen faces two fcloses —, afterwards distinct objects still
+    hold distinct handles, the handles open are exactly those the objects hold (nothing leaked, nothing stale), and the
+    counts balance: open before + successful fopens = open after + fcloses.  Moreover the calls made on behalf of each
+    single object are well bracketed and end with what that object holds (the per-object form). -/
+theorem C20_close_once_system {σ : Type} (io : Stdio σ) (s : Multi σ) (steps : List (Nat × MOp)) (live : List Handle)
+    (hsep : s.Sep) (hlive : s.LiveIs live) (hclean : s.cleanRun io Cfg.fixed steps = true) :
+    let e := s.run io Cfg.fixed steps
+    ∃ suf, e.log = s.log ++ suf ∧
+      (freshCalls live (untag suf) = true →
+        ∃ live', gtrack live (untag suf) = some live' ∧ e.Sep ∧ e.LiveIs live' ∧
+          live.length + ((untag suf).filter isOpenOk).length = live'.length + ((untag suf).filter isClose).length) ∧
+      ∀ o, track (s.held o) (proj o suf) = some (e.held o) := by
+  intro e
+  obtain ⟨suf, hl, hg⟩ := Multi.run_gtracks io s steps hclean
+  refine ⟨suf, hl, ?_, ?_⟩
+  · intro hf
+    obtain ⟨L, g, h1, h2⟩ := hg live hsep hlive hf
+    exact ⟨L, g, h1, h2, gtrack_count live L _ g⟩
+  · intro o
+    obtain ⟨suf', hl', ht⟩ := Multi.run_track io s steps hclean o
+    rw [suffix_unique hl hl']
+    exact ht
+
+/-- from a start in which no File is open (every program's start): the log of the whole process is accepted from the
+    empty set of handles, and successful fopens = fcloses + handles still held by objects -/
+theorem C20_close_once_from_closed {σ : Type} (io : Stdio σ) (s : Multi σ) (hs : ∀ p ∈ s.objs, p.2 = none)
+    (steps : List (Nat × MOp)) (hclean : s.cleanRun io Cfg.fixed steps = true) :
+    let e := s.run io Cfg.fixed steps
+    ∃ suf, e.log = s.log ++ suf ∧
+      (freshCalls [] (untag suf) = true →
+        ∃ live', gtrack [] (untag suf) = some live' ∧ e.Sep ∧ e.LiveIs live' ∧
+          ((untag suf).filter isOpenOk).length = live'.length + ((untag suf).filter isClose).length) := by
+  intro e
+  obtain ⟨h1, h2⟩ := Multi.closed_start s (held_of_all_none s hs)
+  obtain ⟨suf, hl, hg, _⟩ := C20_close_once_system io s steps [] h1 h2 hclean
+  refine ⟨suf, hl, fun hf => ?_⟩
+  obtain ⟨L, g, a, b, c⟩ := hg hf
+  exact ⟨L, g, a, b, by simpa using c⟩
+
+/-- the hypotheses are met by a concrete history under the reference stdio that creates, copies and assigns CLOSED Files
+    (that is allowed), opens, reopens, deletes: stdio is fresh, the log is accepted, one handle is open at the end (held by
+    object 5) -/
+example :
+    let s0 : Multi Ref := ⟨Ref.init, [(0, none), (1, none)], []⟩
+    let steps : List (Nat × MOp) :=
+      [(4, .new none), (5, .copy 4), (0, .assign 5), (4, .op (.open 0 .w)), (5, .op (.open 1 .w)), (4, .op (.write [1, 2])),
+       (4, .op (.open 2 .w)), (1, .assign 0), (4, .del), (5, .op (.write [3]))]
+    (∀ p ∈ s0.objs, p.2 = none) ∧ s0.cleanRun refIO Cfg.fixed steps = true ∧
+    freshCalls [] (untag (s0.run refIO Cfg.fixed steps).log) = true ∧
+    gtrack [] (untag (s0.run refIO Cfg.fixed steps).log) = some [2] ∧ (s0.run refIO Cfg.fixed steps).held 5 = some 2 := by
+  decide
+
+/-- the full statement, without the hypothesis on copy / assign (already false under the reference stdio from the empty
+    system) -/
+def C20_close_once_system_statement : Prop :=
+  ∀ (steps : List (Nat × MOp)),
+    let s0 : Multi Ref := ⟨Ref.init, [], []⟩
+    let e := s0.run refIO Cfg.fixed steps
+    freshCalls [] (untag e.log) = true →
+      ∃ live', gtrack [] (untag e.log) = some live' ∧ e.Sep ∧ e.LiveIs live'
+
+/-- **Known finding KF-C20-copy-aliases-handle: the statement without the hypothesis is refuted.**  File has no Assign and
+    no Copy instance, so `copy(f)` is `assign(alloc(File), f)` and `assign` is `memcpy`: the FILE* is duplicated.
+    Witness 1 (reference stdio): `f = new(File, "f0", "w"); g = copy(f); sclose(f); swrite(g, "x"); sclose(g)` — after the
+    copy two objects hold handle 1 (`Sep` fails); sclose(f) closes it; swrite(g) hands the closed handle to fwrite (no
+    IOError from the closed-handle test, it sees a non-NULL pointer); sclose(g) hands it to fclose a second time: one
+    successful fopen, two fcloses of the same handle, the log of the process is rejected (`gtrack = none`) — while the
+    per-object logs of f and of g each look well bracketed from what that object held, which is why the statement
+    has to be made over handles.
+    Witness 2: `f = new(File, "f0", "w"); g = new(File); assign(f, g); del(f); del(g)` — the memcpy overwrites the handle f
+    held: one fopen, no fclose, handle 1 is still open and no object holds it (`LiveIs` fails: a leak).
+    Witness 3 (`assign(g, f)` with f open, g closed) aliases like `copy`. -/
+theorem C20_copy_aliases_refuted :
+    ¬ C20_close_once_system_statement ∧
+    (let s0 : Multi Ref := ⟨Ref.init, [], []⟩
+     let e1 := s0.run refIO Cfg.fixed [(4, .new (some (0, .w))), (5, .copy 4)]
+     let e := s0.run refIO Cfg.fixed
+       [(4, .new (some (0, .w))), (5, .copy 4), (4, .op .close), (5, .op (.write [120])), (5, .op .close)]
+     e1.held 4 = some 1 ∧ e1.held 5 = some 1 ∧
+     e.log = [(4, .fopen 0 .w (some 1)), (4, .on .fclose 1), (5, .on .fwrite 1), (5, .on .fclose 1)] ∧
+     freshCalls [] (untag e.log) = true ∧ gtrack [] (untag e.log) = none ∧
+     gtrack [] (untag (e.log.take 2)) = some [] ∧          -- accepted up to sclose(f); the next call is on a closed handle
+     ((untag e.log).filter isOpenOk).length = 1 ∧ ((untag e.log).filter isClose).length = 2 ∧
+     track none (proj 4 e.log) = some none ∧ track (some 1) (proj 5 e.log) = some none ∧
+     s0.cleanRun refIO Cfg.fixed [(4, .new (some (0, .w))), (5, .copy 4)] = false) ∧
+    (let s0 : Multi Ref := ⟨Ref.init, [], []⟩
+     let e := s0.run refIO Cfg.fixed [(4, .new (some (0, .w))), (5, .new none), (4, .assign 5), (4, .del), (5, .del)]
+     e.log = [(4, .fopen 0 .w (some 1))] ∧ e.objs = [] ∧ gtrack [] (untag e.log) = some [1] ∧
+     (e.lib.streams.map (·.1)) = [1]) ∧
+    (let s0 : Multi Ref := ⟨Ref.init, [], []⟩
+     let e := s0.run refIO Cfg.fixed [(4, .new (some (0, .w))), (5, .new none), (5, .assign 4), (5, .del), (4, .del)]
+     e.log = [(4, .fopen 0 .w (some 1)), (5, .on .fclose 1), (4, .on .fclose 1)] ∧ gtrack [] (untag e.log) = none) := by
+  refine ⟨?_, by decide, by decide, by decide⟩
+  intro h
+  have := h [(4, .new (some (0, .w))), (5, .copy 4), (4, .op .close), (5, .op (.write [120])), (5, .op .close)] (by decide)
+  obtain ⟨L, hg, _⟩ := this
+  have hnone : gtrack [] (untag ((⟨Ref.init, [], []⟩ : Multi Ref).run refIO Cfg.fixed
+      [(4, .new (some (0, .w))), (5, .copy 4), (4, .op .close), (5, .op (.write [120])), (5, .op .close)]).log) = none := by
+    decide
+  rw [hnone] at hg
+  exact absurd hg (by simp)
 
 /-! ## the `with` construct: `for(var X = start_in(S); X isnt NULL; X = stop_in(X))`
 
   Programs are lists of `Stmt`: operations on named objects and with blocks whose source expression is a variable or
   a constructor call (`new(File, …)` in the header: every evaluation constructs and opens another File), with any body
-  (nested blocks included) and any of the four ways out (fall off the end, continue, break, exception). -/
+  (nested blocks included) and any of the five ways out (fall off the end, continue, break, return, exception). -/
 
 /-- **C20 (close-once) for programs with `with` blocks** (extends C20_close_once_system).  For every stdio
     implementation, every program, every start state and every object: the stdio calls made on behalf of that object
     continue its log in a well-bracketed way and end with exactly what the object holds.  (This holds for either
     variant of the step clause: each single object is always used correctly.  What the variant `stop_in(S)` breaks is
     WHICH object is stopped: the next theorems.) -/
-theorem C20_with_close_once_system {σ : Type} (io : Stdio σ) (w : WithCfg) (s : WSys σ) (p : List Stmt) (o : Nat) :
+theorem C20_with_close_once_system {σ : Type} (io : Stdio σ) (w : WithCfg) (s : WSys σ) (p : List Stmt)
+    (hclean : cleanList io Cfg.fixed w p s = true) (o : Nat) :
     ∃ suf, (execList io Cfg.fixed w p s).m.log = s.m.log ++ suf ∧
       track (s.m.held o) (proj o suf) = some ((execList io Cfg.fixed w p s).m.held o) :=
-  execList_tracks io w p s o
+  execList_tracks io w p s hclean o
+
+/-- **… and over handles, for the whole process** (extends C20_close_once_system to programs).  For every stdio, every
+    program that never copies / assigns an open File — any nesting of with blocks, any way out of them, either variant of
+    the step clause — from a separated state with exactly `live` open: if stdio hands out no handle that is still open,
+    the log of the process is accepted by the automaton over handles, objects still hold distinct handles, and the handles
+    open at the end are exactly the ones the objects hold.  (A block left by break / return / an exception leaves its
+    stream open, but HELD: the File can still be closed.  That it is not closed by leaving the block is the next finding.) -/
+theorem C20_with_close_once_global {σ : Type} (io : Stdio σ) (w : WithCfg) (s : WSys σ) (p : List Stmt) (live : List Handle)
+    (hsep : s.m.Sep) (hlive : s.m.LiveIs live) (hclean : cleanList io Cfg.fixed w p s = true) :
+    let e := execList io Cfg.fixed w p s
+    ∃ suf, e.m.log = s.m.log ++ suf ∧
+      (freshCalls live (untag suf) = true →
+        ∃ live', gtrack live (untag suf) = some live' ∧ e.m.Sep ∧ e.m.LiveIs live' ∧
+          live.length + ((untag suf).filter isOpenOk).length = live'.length + ((untag suf).filter isClose).length) := by
+  intro e
+  obtain ⟨suf, hl, hg⟩ := execList_gtracks io w p s hclean
+  refine ⟨suf, hl, fun hf => ?_⟩
+  obtain ⟨L, g, h1, h2⟩ := hg live hsep hlive hf
+  exact ⟨L, g, h1, h2, gtrack_count live L _ g⟩
 
 /-- **One block, spelled out.**  Under the macro as it is, for every source expression, every body and every way out:
     the source expression is evaluated by the init clause and nowhere else; if its constructor throws nothing else
     happens; otherwise the body runs with the loop variable bound to the value `x` of that one evaluation, and then —
-    exactly when the body fell off its end or executed `continue` — File_Close is applied to that same `x`. -/
+    exactly when the body fell off its end or executed `continue` — File_Close is applied to that same `x`
+    (break, return and an exception leave the state exactly as the body left it). -/
 theorem C20_with_statement_trace {σ : Type} (io : Stdio σ) (cfg : Cfg) (src : Src) (body : List Stmt) (leave : Leave)
     (s : WSys σ) :
     let i := initClause io cfg s.m src
@@ -228,10 +435,20 @@ theorem C20_with_evaluated_once {σ : Type} (io : Stdio σ) (cfg : Cfg) (s : WSy
   have := wtrack_count ([], none) ([], none) evs h2
   exact ⟨evs, h1, by simpa using this.1, by simpa using this.2⟩
 
-/-- **Leaving a with block closes the stream of the object it was entered with.**  For every stdio (fclose may fail),
-    every source expression, every body — which may close, reopen or even delete that object — and both ways of
-    reaching the step clause: afterwards the object the init clause bound holds no handle. -/
-theorem C20_with_closes_bound {σ : Type} (io : Stdio σ) (src : Src) (body : List Stmt) (leave : Leave) (s : WSys σ)
+/-- The full statement of "leaving a with block closes the stream": for every stdio, every source expression, every body
+    and EVERY way out, afterwards the object the init clause bound holds no handle.  False for break / return / exception
+    (C20_with_early_exit_refuted); proved for the two ways that reach the step clause (C20_with_closes_bound_partial). -/
+def C20_with_closes_statement : Prop :=
+  ∀ (σ : Type) (io : Stdio σ) (src : Src) (body : List Stmt) (leave : Leave) (s : WSys σ) (x : Nat),
+    (initClause io Cfg.fixed s.m src).x = some x →
+    (execStmt io Cfg.fixed WithCfg.fixed (.withIn src body leave) s).m.held x = none
+
+/-- **Leaving a with block closes the stream of the object it was entered with — through the step clause.**  For every
+    stdio (fclose may fail), every source expression, every body — which may close, reopen or even delete that object —
+    and both ways of reaching the step clause (falling off the end, `continue`): afterwards the object the init clause
+    bound holds no handle.  `_partial`: restricted to `leave.runsStep = true`; what is missing is exactly the region of
+    known finding KF-C20-with-early-exit, where the statement is false (next two theorems). -/
+theorem C20_with_closes_bound_partial {σ : Type} (io : Stdio σ) (src : Src) (body : List Stmt) (leave : Leave) (s : WSys σ)
     (x : Nat) (hx : (initClause io Cfg.fixed s.m src).x = some x) (hl : leave.runsStep = true) :
     (execStmt io Cfg.fixed WithCfg.fixed (.withIn src body leave) s).m.held x = none := by
   rw [execStmt_withIn_fixed io Cfg.fixed src body leave s x hx hl]
@@ -239,16 +456,18 @@ theorem C20_with_closes_bound {σ : Type} (io : Stdio σ) (src : Src) (body : Li
 
 /-- **The File constructed in the header: every fopen matched by exactly one fclose of that handle, for every body.**
     `with (f in new(File …)) { body }` under a name that is free, any stdio, any arguments (none, or a file and a mode;
-    fopen may fail), any body, leaving through the step clause: the calls made on behalf of the new File form a
+    fopen may fail), any body that does not copy / assign an open File, leaving through the step clause (`_partial`:
+    `leave.runsStep = true`, see C20_with_early_exit_refuted): the calls made on behalf of the new File form a
     well-bracketed log that ends with nothing held — each successful fopen (the constructor's, and any reopen in the
     body) is followed by exactly one fclose of that very handle — so the counts balance. -/
-theorem C20_with_inline_balanced {σ : Type} (io : Stdio σ) (s : WSys σ) (name : Nat) (args : Option (Nat × Mode))
-    (body : List Stmt) (leave : Leave) (hl : leave.runsStep = true) (hfree : lookup name s.m.objs = none) :
+theorem C20_with_inline_balanced_partial {σ : Type} (io : Stdio σ) (s : WSys σ) (name : Nat) (args : Option (Nat × Mode))
+    (body : List Stmt) (leave : Leave) (hl : leave.runsStep = true) (hfree : lookup name s.m.objs = none)
+    (hclean : cleanStmt io Cfg.fixed WithCfg.fixed (.withIn (.newFile name args) body leave) s = true) :
     let e := execStmt io Cfg.fixed WithCfg.fixed (.withIn (.newFile name args) body leave) s
     ∃ suf, e.m.log = s.m.log ++ suf ∧ track none (proj name suf) = some none ∧
       ((proj name suf).filter isOpenOk).length = ((proj name suf).filter isClose).length := by
   intro e
-  obtain ⟨suf, h1, h2⟩ := execStmt_tracks io WithCfg.fixed (.withIn (.newFile name args) body leave) s name
+  obtain ⟨suf, h1, h2⟩ := execStmt_tracks io WithCfg.fixed (.withIn (.newFile name args) body leave) s hclean name
   have hfn : freshName s.m.objs name = name := freshName_of_free _ _ hfree
   have hend : e.m.held name = none := by
     cases hx : (initClause io Cfg.fixed s.m (.newFile name args)).x with
@@ -266,7 +485,7 @@ theorem C20_with_inline_balanced {σ : Type} (io : Stdio σ) (s : WSys σ) (name
       rw [initClause_x] at hx'
       have hxn : x = name := by rw [evalSrc_newFile_x io Cfg.fixed s.m name args x hx', hfn]
       subst hxn
-      exact C20_with_closes_bound io _ body leave s x hx hl
+      exact C20_with_closes_bound_partial io _ body leave s x hx hl
   rw [held_of_lookup_none s.m name hfree] at h2
   have h2' : track none (proj name suf) = some none := by rw [h2]; exact congrArg some hend
   refine ⟨suf, h1, h2', ?_⟩
@@ -274,11 +493,11 @@ theorem C20_with_inline_balanced {σ : Type} (io : Stdio σ) (s : WSys σ) (name
 
 /-- **What the body wrote is in the file afterwards** (the documented idiom under the reference stdio).  For every
     library state, every regular file `k`, mode "w"/"w+", every list of chunks (empty ones and zero bytes included), a
-    name that is free, leaving by the end of the body or by `continue`:
+    name that is free, leaving by the end of the body or by `continue` (`_partial`: `leave.runsStep = true`):
     `with (f in new(File, $S(k), $S("w"))) { swrite(f, chunk)… }` makes exactly one fopen, one fwrite per chunk and one
     fclose — of the handle that fopen returned —, the source expression is evaluated once, the file then holds exactly
     the chunks, the File holds nothing and the handle is no longer open. -/
-theorem C20_with_inline_roundtrip (l : Ref) (objs : List (Nat × Option Handle)) (log : List (Nat × Call)) (ev : List WEv)
+theorem C20_with_inline_roundtrip_partial (l : Ref) (objs : List (Nat × Option Handle)) (log : List (Nat × Call)) (ev : List WEv)
     (k : Nat) (hk : Regular k) (name : Nat) (hfree : lookup name objs = none) (mw : Mode) (hmw : mw = .w ∨ mw = .wp)
     (cs : List (List Byte)) (leave : Leave) (hl : leave.runsStep = true) :
     let src := Src.newFile name (some (k, mw))
@@ -288,6 +507,42 @@ theorem C20_with_inline_roundtrip (l : Ref) (objs : List (Nat × Option Handle))
         (fun c => (name, c))) ∧
       e.ev = ev ++ [.eval src (some name), .start name, .stop name] :=
   with_inline_write l objs log ev k hk name hfree mw hmw cs leave hl
+
+/-- **What break, return and an exception do: nothing.**  For every stdio, every source expression, every body: when
+    the body is left without reaching the step clause, the system — objects, library, log of stdio calls — is exactly what
+    the body left; no File_Close, no stdio call.  In particular the loop variable's File holds whatever the body left it
+    holding. -/
+theorem C20_with_early_exit_leaves_open {σ : Type} (io : Stdio σ) (cfg : Cfg) (w : WithCfg) (src : Src) (body : List Stmt)
+    (leave : Leave) (s : WSys σ) (x : Nat) (hx : (initClause io cfg s.m src).x = some x) (hl : leave.runsStep = false) :
+    let b := execList io cfg w body ⟨(initClause io cfg s.m src).m, s.ev ++ (initClause io cfg s.m src).evs⟩
+    (execStmt io cfg w (.withIn src body leave) s).m = b.m := by
+  intro b
+  rw [execStmt_withIn_left io cfg w src body leave s x hx hl]
+
+/-- **Known finding KF-C20-with-early-exit: "leaving a with block closes the stream exactly once" is refuted for break,
+    return and exceptions.**  `with_in(X, S)` is `for(var X = start_in(S); X isnt NULL; X = stop_in(X))`: only falling off
+    the end and `continue` reach `stop_in`.  Witness under the reference stdio, the documented idiom
+    `with (f in new(File, $S("f0"), $S("w"))) { swrite(f, "hi"); <break | return | throw> }`: one successful fopen, no
+    fclose, the File still holds handle 1 and the stream is still open in the library — for each of the three ways out;
+    the same block left by falling off its end or by `continue` closes it. -/
+theorem C20_with_early_exit_refuted :
+    ¬ C20_with_closes_statement ∧
+    (∀ leave : Leave,
+      let s0 : WSys Ref := ⟨⟨Ref.init, [], []⟩, []⟩
+      let e := execStmt refIO Cfg.fixed WithCfg.fixed
+        (.withIn (.newFile 4 (some (0, .w))) [.op 4 (.op (.write [104, 105]))] leave) s0
+      if leave.runsStep then
+        e.m.held 4 = none ∧ e.m.log = [(4, .fopen 0 .w (some 1)), (4, .on .fwrite 1), (4, .on .fclose 1)] ∧
+          e.m.lib.streams = []
+      else
+        e.m.held 4 = some 1 ∧ e.m.log = [(4, .fopen 0 .w (some 1)), (4, .on .fwrite 1)] ∧
+          ((untag e.m.log).filter isOpenOk).length = 1 ∧ ((untag e.m.log).filter isClose).length = 0 ∧
+          (e.m.lib.streams.map (·.1)) = [1] ∧ e.ev = [.eval (.newFile 4 (some (0, .w))) (some 4), .start 4, .left leave]) := by
+  refine ⟨?_, by intro leave; cases leave <;> decide⟩
+  intro h
+  have := h Ref refIO (.newFile 4 (some (0, .w))) [.op 4 (.op (.write [104, 105]))] .brk ⟨⟨Ref.init, [], []⟩, []⟩ 4 (by decide)
+  revert this
+  decide
 
 /-- the documented idiom on a concrete history, macro as it is: `with (f in new(File, $S("f0"), $S("w"))) { swrite "hi" }`
     then a second block that appends "!" and is left by break (the stream stays open until sclose) -/
@@ -305,10 +560,15 @@ example :
     wtrack ([], none) e.ev = some ([], none) := by
   decide
 
-/-- the hypotheses of the block theorems are met by a concrete state -/
+/-- the hypotheses of the block theorems are met by a concrete state; a body that copies a CLOSED File is clean -/
 example : lookup 4 ([(0, none), (1, some 7)] : List (Nat × Option Handle)) = none ∧ Leave.fall.runsStep = true ∧
-    Leave.cont.runsStep = true ∧
-    (initClause refIO Cfg.fixed ⟨Ref.init, [], []⟩ (.newFile 4 (some (0, .w)))).x = some 4 := by decide
+    Leave.cont.runsStep = true ∧ Leave.brk.runsStep = false ∧ Leave.ret.runsStep = false ∧ Leave.throw.runsStep = false ∧
+    (initClause refIO Cfg.fixed ⟨Ref.init, [], []⟩ (.newFile 4 (some (0, .w)))).x = some 4 ∧
+    cleanStmt refIO Cfg.fixed WithCfg.fixed
+      (.withIn (.newFile 4 (some (0, .w))) [.op 5 (.new none), .op 6 (.copy 5), .op 4 (.op (.write [1]))] .fall)
+      ⟨⟨Ref.init, [], []⟩, []⟩ = true ∧
+    cleanStmt refIO Cfg.fixed WithCfg.fixed
+      (.withIn (.newFile 4 (some (0, .w))) [.op 6 (.copy 4)] .fall) ⟨⟨Ref.init, [], []⟩, []⟩ = false := by decide
 
 /-- **The variant `X = stop_in(S)` is refuted.**  If the step clause hands the macro argument to stop_in, the source
     expression is evaluated a second time when the block is left.  Witness under the reference stdio, the documented
